@@ -324,25 +324,52 @@ func equivalent(a, b *NFA, rec map[string]string) (bool, []string, string) {
 			continue
 		}
 		seen[k] = true
-		if a.accepting(it.p.x) != b.accepting(it.p.y) {
-			who := "the second role can stop here, the first cannot"
-			if a.accepting(it.p.x) {
-				who = "the first role can stop here, the second cannot"
-			}
-			return false, it.trace, who
-		}
 		sa := a.syms(it.p.x)
 		sb := map[string]string{}
 		for s := range b.syms(it.p.y) {
 			sb[Dual(s, rec)] = s
+		}
+		// wildcards: "!ANY" / "?ANY" (a role that writes or reads the connection's buffers directly) stand for
+		// any events of that direction; they oblige the peer to nothing and match whatever it does
+		isAny := func(s string) bool { return len(s) > 1 && strings.HasPrefix(s[1:], "ANY") }
+		anyOf := func(set map[string]bool, dir byte) string {
+			for s := range set {
+				if isAny(s) && s[0] == dir {
+					return s
+				}
+			}
+			return ""
+		}
+		sbSet := map[string]bool{}
+		for s := range sb {
+			sbSet[s] = true
+		}
+		aWild := anyOf(sa, '!') != "" || anyOf(sa, '?') != ""
+		bWild := anyOf(sbSet, '!') != "" || anyOf(sbSet, '?') != ""
+		if a.accepting(it.p.x) != b.accepting(it.p.y) {
+			// a side inside a raw segment may still produce what the other is waiting for
+			if (a.accepting(it.p.x) && !aWild) || (b.accepting(it.p.y) && !bWild) {
+				who := "the second role can stop here, the first cannot"
+				if a.accepting(it.p.x) {
+					who = "the first role can stop here, the second cannot"
+				}
+				return false, it.trace, who
+			}
 		}
 		var sorted []string
 		for s := range sa {
 			sorted = append(sorted, s)
 		}
 		sort.Strings(sorted)
+		directed := func(s string) bool { return s != "" && (s[0] == '!' || s[0] == '?') }
 		for _, s := range sorted {
+			if isAny(s) {
+				continue
+			}
 			if _, ok := sb[s]; !ok {
+				if directed(s) && anyOf(sbSet, s[0]) != "" {
+					continue
+				}
 				return false, append(append([]string{}, it.trace...), s), "the first role can do " + s + ", the second has no matching " + Dual(s, rec)
 			}
 		}
@@ -352,12 +379,69 @@ func equivalent(a, b *NFA, rec map[string]string) (bool, []string, string) {
 		}
 		sort.Strings(sortedB)
 		for _, s := range sortedB {
+			if isAny(s) {
+				continue
+			}
 			if !sa[s] {
+				if directed(s) && anyOf(sa, s[0]) != "" {
+					continue
+				}
 				return false, append(append([]string{}, it.trace...), s), "the second role can do " + sb[s] + ", the first has no matching " + s
 			}
 		}
+		union := func(x, y map[int]bool) map[int]bool {
+			out := map[int]bool{}
+			for k := range x {
+				out[k] = true
+			}
+			for k := range y {
+				out[k] = true
+			}
+			return out
+		}
+		all := map[string]bool{}
 		for _, s := range sorted {
-			queue = append(queue, item{pair{a.step(it.p.x, s), b.step(it.p.y, sb[s])}, append(append([]string{}, it.trace...), s)})
+			all[s] = true
+		}
+		for _, s := range sortedB {
+			all[s] = true
+		}
+		var syms []string
+		for s := range all {
+			syms = append(syms, s)
+		}
+		sort.Strings(syms)
+		for _, s := range syms {
+			var nx, ny map[int]bool
+			if isAny(s) {
+				// both sides raw in the same direction
+				if !sa[s] || !sbSet[s] {
+					continue
+				}
+				nx, ny = a.step(it.p.x, s), b.step(it.p.y, sb[s])
+			} else {
+				nx, ny = map[int]bool{}, map[int]bool{}
+				if sa[s] {
+					nx = a.step(it.p.x, s)
+				}
+				if directed(s) {
+					if w := anyOf(sa, s[0]); w != "" {
+						nx = union(nx, a.step(it.p.x, w))
+					}
+				}
+				if bs, ok := sb[s]; ok {
+					ny = b.step(it.p.y, bs)
+				}
+				if directed(s) {
+					if w := anyOf(sbSet, s[0]); w != "" {
+						ny = union(ny, b.step(it.p.y, sb[w]))
+					}
+				}
+			}
+			if len(nx) == 0 || len(ny) == 0 {
+				continue
+			}
+			queue = append(queue, item{pair{nx, ny}, append(append([]string{}, it.trace...), s)})
 		}
 	}
 	return true, nil, ""
